@@ -139,8 +139,8 @@ def in_domain(n, v):
         return abs(v[0]) < (1 << 53) if 'DFlo' in n else abs(v[0]) < (1 << 24)
     if n in ('SFloTruncate', 'DFloTruncate', 'SFloFraction', 'DFloFraction'):
         return True
-    if n in ('SFloDivide', 'DFloDivide') and v[1] in ('0.0', '-0.0'):
-        return False
+    if n in ('SFloDivide', 'DFloDivide') and v[1] in ('0.0', '-0.0') and v[0] in ('0.0', '-0.0'):
+        return False          # 0/0 is NaN: payload and sign are not defined
     if n[:4] in ('SFlo', 'DFlo') and n[4:] in ('Plus', 'Minus', 'Times', 'Divide', 'TimesPlus', 'Next', 'Prev'):
         # results that overflow to infinity (or are NaN) are left to the dedicated non-finite family
         import struct
@@ -153,12 +153,8 @@ def in_domain(n, v):
                  x[0] / x[1] if o == 'Divide' else x[0] * x[1] + x[2] if o == 'TimesPlus' else x[0])
             if n[0] == 'S':
                 r = struct.unpack('f', struct.pack('f', r))[0]
-            if r != r or r in (float('inf'), float('-inf')):
-                return False
-            if o in ('Next', 'Prev') and abs(x[0]) >= (3.4e38 if n[0] == 'S' else 1.79e308):
-                return False
         except (OverflowError, ZeroDivisionError):
-            return False
+            pass      # overflow to infinity is a defined float result: the folder must leave it to run time
         return True
     if n in ('WordDivideDouble',):
         return v[2] != 0 and v[0] < v[2]
@@ -455,7 +451,7 @@ def main(tier):
                 # -Q2 turns on ffold, which by design treats float arithmetic algebraically (0 + x => x): the sign of a zero
                 # result is not preserved with non-constant operands; compare zeros without their sign there
                 pass
-            if r[0] in ('SFlo', 'DFlo'):
+            if r[0] in ('SFlo', 'DFlo') and set(p) - {'c'}:
                 # sign of a zero result: -Q2 enables ffold (float arithmetic treated algebraically, 0 - x => -x) and expression
                 # sharing compares constants numerically (0.0 == -0.0); zero results are compared without their sign here.
                 # The exactness of the -0.0 literal itself is checked by C19.
